@@ -34,6 +34,17 @@ LEVEL_TEXT = (
 )
 
 DYADIC = st.integers(-64, 64).map(lambda x: x / 8.0)
+# near ties: values that differ by far less than any sensible tolerance but are not equal
+NEAR = st.tuples(st.sampled_from([-1.5, 0.0, 2.25, 1000.0]), st.sampled_from([0.0, 0.0, 1e-6, -1e-6, 3e-8, 1e-9, -2e-10, 5e-12])).map(
+    lambda t: t[0] + t[1] * max(1.0, abs(t[0]))
+)
+
+
+def values(draw, n):
+    mode = draw(st.sampled_from(["ties", "dyadic", "near"]))
+    el = {"ties": st.sampled_from([-1.5, 0.0, 2.25]), "dyadic": DYADIC, "near": NEAR}[mode]
+    return draw(st.lists(el, min_size=n, max_size=n))
+
 
 
 @st.composite
@@ -41,8 +52,7 @@ def case_a(draw):
     rank = draw(st.integers(1, 4))
     shape = [draw(st.integers(1, 4)) for _ in range(rank)]
     n = int(np.prod(shape))
-    ties = draw(st.booleans())
-    vals = draw(st.lists(st.sampled_from([-1.5, 0.0, 2.25]) if ties else DYADIC, min_size=n, max_size=n))
+    vals = values(draw, n)
     k = draw(st.integers(1, rank))
     axes = sorted(draw(st.lists(st.integers(0, rank - 1), min_size=k, max_size=k, unique=True)))
     use_mask = draw(st.integers(0, 3)) > 0
@@ -54,7 +64,7 @@ def case_a(draw):
         m[tuple(sl)] = False
         mask = m.reshape(-1).tolist()
     return {"kind": "a", "shape": shape, "vals": vals, "axes": axes, "mask": mask,
-            "jit": draw(st.booleans()), "int_axis": draw(st.booleans()), "dtype": draw(st.sampled_from(["float", "float", "int"]))}
+            "jit": draw(st.booleans()), "int_axis": draw(st.booleans()), "dtype": draw(st.sampled_from(["float", "float", "float", "int"]))}
 
 
 EXPRS = [
@@ -88,8 +98,7 @@ def case_c(draw):
     rows = sum(sizes)
     trailing = [draw(st.integers(1, 3)) for _ in range(draw(st.integers(0, 2)))]
     n = rows * int(np.prod(trailing)) if trailing else rows
-    ties = draw(st.booleans())
-    vals = draw(st.lists(st.sampled_from([-1.5, 0.0, 2.25]) if ties else DYADIC, min_size=n, max_size=n))
+    vals = values(draw, n)
     return {"kind": "c", "sizes": sizes, "trailing": trailing, "vals": vals,
             "mode": draw(st.sampled_from(["eager", "jit", "fused"]))}
 
